@@ -13,3 +13,5 @@ pub mod c11;
 pub mod c10;
 #[cfg(kani)]
 pub mod c09;
+#[cfg(kani)]
+pub mod c17;
